@@ -216,6 +216,8 @@ func main() {
 	}
 	res.Counters["panics"] = st.Panics
 	res.Counters["expected-panics"] = st.ExpPanics
+	res.Counters["running-batch-filter-reused-inside-callback"] = st.FilterReuse
+	res.Counters["locked-table-rows-tried-inside-callbacks"] = st.NestedRows
 	res.Counters["bystander-world-batch-ops-inside-callbacks"] = st.BystanderOps
 	res.Counters["rejected-calls-through-the-running-ops-object"] = st.NestedSameObject
 	res.Counters["sweeps"] = st.Sweeps
